@@ -826,8 +826,12 @@ class CompositeEnvelope:
             state_objs.extend(ce.state_objs)
             if ce_container is None:
                 ce_container = CompositeEnvelope._containers[ce.uid]
-            elif CompositeEnvelope._containers[ce.uid] is not ce_container:
-                # Handles which already share the container have nothing to add
+            elif CompositeEnvelope._containers[ce.uid] is not ce_container and not any(
+                CompositeEnvelope._containers[ce.uid] is absorbed
+                for absorbed in absorbed_containers
+            ):
+                # Handles which already share the container, or whose container was
+                # absorbed through another handle, have nothing to add
                 ce_container.append_states(CompositeEnvelope._containers[ce.uid])
                 absorbed_containers.append(CompositeEnvelope._containers[ce.uid])
             ce.uid = self.uid
